@@ -8,4 +8,18 @@ Local Open Scope Z_scope.
 Theorem C15_configuration_never_indexes_outside_the_funding_tx : forall sha256 ripemd160 spend funding txid sel i n,
   select_input spend funding txid sel = Some (i, n) -> configure sha256 ripemd160 spend funding i n <> CfgCrash.
 Proof. exact configure_no_crash. Qed.
+(* one interpreter step - any opcode, any stack, any flags, any script version, inside or outside exec - returns a result, an error or a caught
+   exception; none of the model's crash outcomes (failed assertion incl. the default branches of the numeric / extended opcode switches, dangling
+   script iterator, division by zero, undefined shift, signed overflow) is reachable from a safe environment *)
+Theorem C15_step_never_crashes : forall low_s c e pc local, safe c e -> forall x, snd (step_script low_s c e pc local) <> SCrash x.
+Proof. exact step_script_no_crash. Qed.
+
+(* sessions start safe: setup_environment points pbegincodehash at the script; a tapscript configuration (C03_v1_setup) initialises the weight *)
+Theorem C15_sessions_start_safe : forall c script stack succ ed t,
+  ((c_sigver c =? SV_BASE) || (c_sigver c =? SV_WITNESS_V0) || (c_sigver c =? SV_TAPROOT) = false -> ed_weight_init ed = true) ->
+  safe c (i_e (setup_env c script stack succ ed t)).
+Proof. exact setup_env_safe. Qed.
+
 Print Assumptions C15_configuration_never_indexes_outside_the_funding_tx.
+Print Assumptions C15_step_never_crashes.
+Print Assumptions C15_sessions_start_safe.
